@@ -189,6 +189,8 @@ func (p *Path) intrinsic(fn *ssa.Function, args []Value) (Value, bool) {
 			return tTrue, true
 		}
 		return mkUF("f32finite", SBool, f.bits), true
+	case "verifFormatCalls":
+		return mkInt(int64(p.fmtCalls)), true
 	case "verifEffectCount":
 		return mkInt(int64(len(p.effects))), true
 	case "verifEffectName":
